@@ -38,6 +38,10 @@ func init() {
 		}
 		return vfail(q, cur, o, args)
 	})
+	// an immediate function registered under a name that is not all lower case
+	genql.RegisterImmediateFunction("VImmMixed", func(q *genql.Query, cur genql.Map, o *genql.FunctionOptions, args []any) (any, error) {
+		return vfail(q, cur, o, args)
+	})
 	genql.RegisterImmediateFunction("vimm", func(q *genql.Query, cur genql.Map, o *genql.FunctionOptions, args []any) (any, error) {
 		return vfail(q, cur, o, args)
 	})
